@@ -1066,7 +1066,9 @@ func TestVerifC05b(t *testing.T) {
 			// directed: a lease of B is renewed while A's restore is in flight; later B is sealed and unsealed
 			x.nsReg(1, 3600, 7200, true)
 			x.nsReg(2, 3600, 7200, true)
-			for k.blockedBy(1, 2) {
+			// lease ids are random: with probability 1/256 the two leases share a restore shard lock; take another one
+			// (the test must look at the NEWEST lease — looking at lease 2 again looped forever once in a sweep)
+			for tries := 0; k.blockedBy(1, len(k.leases)-1) && tries < 64; tries++ {
 				x.nsReg(2, 3600, 7200, true)
 			}
 			l := len(k.leases) - 1
